@@ -421,3 +421,106 @@ class gf_generate:
         cur().event("generate", a.size, result)
 
     loops = {0: Loop(invariant=_gen_inv, modifies=("p",), shapes={"c": COLS_SHAPE, "pad": PAD_SHAPE, "column_focused": Bool})}
+
+
+# ------------------------------------------------------------------------------------------------ cross-checks against CPython / the real classes
+def _xc_model_vs_real():
+    """The API model and the layout clauses, read off REAL display widgets: for small GridFlows the real
+    generate_display_widget is run and the real Pile / Padding / Columns / Divider objects are compared with what the
+    clauses above say (widths, rows, row breaks by the geometric rule, first_position, Padding width, dividers, focus)."""
+    import warnings
+
+    bad = []
+    n_cases = 0
+    with warnings.catch_warnings():
+        warnings.simplefilter("ignore")
+        for n in range(0, 5):
+            for cw in (1, 3):
+                for h in (0, 1, 2):
+                    for vs in (0, 1, 3):
+                        for maxcol in (1, 2, 4, 7, 8, 11):
+                            for f in range(max(n, 1)):
+                                cells = [urwid.Text(str(j)) if j % 2 else urwid.SelectableIcon(str(j)) for j in range(n)]
+                                g = urwid.GridFlow(cells, cw, h, vs, "left", focus=f if n else None)
+                                d = g.generate_display_widget((maxcol,))
+                                n_cases += 1
+                                case = (n, cw, h, vs, maxcol, f)
+                                if n == 0:
+                                    if not (isinstance(d, urwid.Divider) and d.rows((maxcol,)) == 1):
+                                        bad.append((case, "empty"))
+                                    continue
+                                rows, x, prev = [], 0, None
+                                for k in range(n):
+                                    w = min(cw, maxcol)
+                                    if prev is None or maxcol - (prev[0] + prev[1] + h) < cw:
+                                        rows.append([])
+                                        x = 0
+                                    else:
+                                        x = prev[0] + prev[1] + h
+                                    rows[-1].append((k, w, x))
+                                    prev = (x, w)
+                                items = list(d.contents)
+                                want_len = 2 * len(rows) - 1 if vs else len(rows)
+                                ok = isinstance(d, urwid.Pile) and len(items) == want_len and all(o == ("weight", 1) for _w, o in items)
+                                for r, row in enumerate(rows):
+                                    if not ok:
+                                        break
+                                    pad = items[2 * r if vs else r][0]
+                                    ok = ok and isinstance(pad, urwid.Padding) and pad.first_position == row[0][0] and pad.width == row[-1][2] + row[-1][1]
+                                    c = pad.original_widget
+                                    ok = ok and isinstance(c, urwid.Columns) and c.dividechars == h and len(c.contents) == len(row)
+                                    ok = ok and all(cc[0] is cells[k] and cc[1] == ("given", w, False) for cc, (k, w, _x) in zip(c.contents, row))
+                                    if any(k == f for k, _w, _x in row):
+                                        ok = ok and d.focus_position == (2 * r if vs else r) and c.focus_position == f - row[0][0]
+                                    if vs and r > 0:
+                                        dv = items[2 * r - 1][0]
+                                        ok = ok and isinstance(dv, urwid.Divider) and dv.rows((maxcol,)) == vs
+                                ok = ok and d.selectable() == any(c.selectable() for c in cells)
+                                if not ok:
+                                    bad.append((case, "layout"))
+    # the MonitoredFocusList rules the Pile model uses
+    p = urwid.Pile([])
+    a, b = urwid.Divider(), urwid.Divider()
+    p.contents.append((a, p.options()))
+    p.contents.append((b, p.options()))
+    ok2 = p.focus_position == 0 and p.options() == ("weight", 1) and urwid.Columns([], 2).options("given", 5) == ("given", 5, False)
+    p.focus_position = 1
+    del p.contents[:1]
+    ok2 = ok2 and p.focus_position == 0 and p.focus is b
+    del p.contents[:1]
+    ok2 = ok2 and len(p.contents) == 0
+    if not ok2:
+        bad.append(("pile", "focus rules"))
+    return "api-model-and-clauses-agree-with-the-real-widgets", not bad, f"{n_cases} real GridFlows; mismatches: {bad[:5]}"
+
+
+def _xc_engine():
+    """The engine rules added with these contracts, against CPython: truth of an object whose class defines __len__;
+    the closure cell of a method of a function-local class; operator.attrgetter."""
+    import operator
+
+    bad = []
+    for obj, want in ((urwid.Pile([]), False), (urwid.Pile([urwid.Text("a")]), True), (urwid.GridFlow([], 1, 0, 0, "left"), False),
+                      (urwid.GridFlow([urwid.Text("a")], 1, 0, 0, "left"), True), (urwid.Columns([]), False), (urwid.Text(""), True), (urwid.Divider(), True)):
+        rule = (len(obj) != 0) if hasattr(type(obj), "__len__") else True
+        if bool(obj) is not want or rule is not want:
+            bad.append(("truth", type(obj).__name__))
+    import inspect
+
+    for name in ("keypress", "render", "rows", "pack", "mouse_event", "get_cursor_coords"):
+        raw = inspect.getattr_static(urwid.WidgetWrap.__mro__[1], name)
+        raw = raw.fget if isinstance(raw, property) else raw
+        while "get_delegate" not in getattr(getattr(raw, "__code__", None), "co_freevars", ()) and hasattr(raw, "__wrapped__"):
+            raw = raw.__wrapped__
+        cell = raw.__closure__[raw.__code__.co_freevars.index("get_delegate")].cell_contents
+        if not (isinstance(cell, operator.attrgetter) and cell.__reduce__()[1] == ("_wrapped_widget",)):
+            bad.append(("closure", name))
+    w = urwid.WidgetWrap(urwid.Text("x"))
+    if operator.attrgetter("_wrapped_widget")(w) is not w._wrapped_widget or operator.attrgetter("_w.align", "_w")(w) != (w._w.align, w._w):
+        bad.append(("attrgetter",))
+    if urwid.WidgetWrap.__mro__[1].__qualname__ != "delegate_to_widget_mixin.<locals>.DelegateToWidgetMixin":
+        bad.append(("qualname",))
+    return "engine-rules-agree-with-cpython", not bad, f"mismatches: {bad}"
+
+
+gf_generate.static_checks = [_xc_model_vs_real, _xc_engine]
